@@ -114,6 +114,7 @@ func c15ByLanguage(p *Program, r *Report) bool {
 	fr := &oframe{fn: fn, env: termEnv{}, bind: map[ssa.Value]*lx{}}
 	oe.seedPseudoTerms(fr)
 	x := oe.strLx(stores[0].Store.Val, stores[0].Store.Block(), fr)
+	oe.forcePieces(x, map[*lx]bool{})
 	pos := p.Pos(stores[0].Store.Pos())
 	// specification skeleton
 	mark := func(key string) (string, bool) {
